@@ -12,7 +12,7 @@ use crate::io::port::{PortState, TestPort};
 use crate::props::c16::{reply_expected, wire_of};
 use crate::repr::M;
 
-pub const RULE: &str = "every (message kind, reply kind) pair is enumerated on every run: 19 message kinds (data chunks of 3 lengths, chunk count, hello, query, goodbye, pixels complete, the 6 requests, report, ack, unknown frame) and, for the kinds that get a reply, every reply (13 state reports, 6 acknowledgements, an unknown frame, a data chunk). Each pair is run as 'message, then a query' on an instrumented port that timestamps the start/end of every write()/read() call with a monotonic clock. Lower bounds asserted on every trial: a data chunk's last write -> the next message's first write >= 30 ms; the read that delivered a page-load/show-in-progress report -> return >= 100 ms; the paced exchanges are repeated on a slow port whose write()/read() calls block 1..40 ms, because the delays count from the end of the write / read. For every other message / reply the minimum over repeated trials (5, adaptively up to 200) of write->next-I/O and read->return must be below 30 ms. Non-trivial = each distinct (message kind, reply kind) pair";
+pub const RULE: &str = "every (message kind, reply kind) pair is enumerated on every run: 19 message kinds (data chunks of 3 lengths, chunk count, hello, query, goodbye, pixels complete, the 6 requests, report, ack, unknown frame) and, for the kinds that get a reply, every reply (13 state reports, 6 acknowledgements, an unknown frame, a data chunk). Each pair is run as 'message, then a query' on an instrumented port that timestamps the start/end of every write()/read() call with a monotonic clock. Lower bounds asserted on every trial: a data chunk's last write -> the next message's first write >= 30 ms; the read that delivered a page-load/show-in-progress report -> return >= 100 ms; the paced exchanges are repeated on a slow port whose write()/read() calls block 1..40 ms, because the delays count from the end of the write / read. For every other message / reply the minimum over repeated trials (5, adaptively up to 200) of write->next-I/O and read->return must be below 30 ms. Generated trains of 3..8 messages on ONE bus (several chunks and in-progress reports in a row) assert the two lower bounds for every paced exchange of the train. Non-trivial = each distinct (message kind, reply kind) pair, and trains with >= 2 paced exchanges";
 pub const ASSUMPTIONS: &[&str] = &[
     "thread::sleep never returns early and Instant is monotonic, so the lower bounds cannot be disturbed by load",
     "an unpaced exchange is only declared delayed when all of up to 200 trials exceed 30 ms, so scheduler noise cannot raise an alarm; a spurious delay shorter than 30 ms is not detected (the statement only speaks of 'either of these amounts')",
@@ -158,6 +158,91 @@ pub fn check_pace(c: &PaceCase, st: &mut Stats, max_trials: usize) -> Result<(),
     Ok(())
 }
 
+/// A train of messages on ONE bus: every data chunk and every in-progress report in it must be paced
+/// (a bus that paces only the first chunk, or every other one, is caught here).
+#[derive(Serialize, Deserialize, Debug, Clone, PartialEq, Eq, Hash)]
+pub struct TrainCase {
+    /// (message, reply if one is due)
+    pub steps: Vec<(M, Option<M>)>,
+    pub write_block_ms: u64,
+}
+
+pub fn check_train(c: &TrainCase, st: &mut Stats) -> Result<(), String> {
+    let mut tape = vec![];
+    for (m, r) in &c.steps {
+        if reply_expected(m) {
+            let r = r.clone().unwrap_or(M::Report(1, 0));
+            tape.extend_from_slice(&wire_of(&r));
+            tape.extend_from_slice(b"\r\n");
+        }
+    }
+    let mut state = PortState::new(tape);
+    if c.write_block_ms > 0 {
+        state.write_block = Some(Duration::from_millis(c.write_block_ms));
+    }
+    let port = TestPort::with_state(state);
+    let h = port.handle();
+    let mut bus = SerialSignBus::try_new(port).map_err(|e| format!("try_new failed: {e}"))?;
+    // per step: (index of first write call, index one past the last write call, one past the last read call, return time)
+    let mut marks: Vec<(usize, usize, usize, Instant)> = vec![];
+    for (i, (m, _)) in c.steps.iter().enumerate() {
+        let w0 = h.borrow().write_calls.len();
+        let r = catch(|| bus.process_message(m.to_message()).map(|_| ()).map_err(|e| e.to_string())).map_err(|p| format!("step {i}: panic: {p}"))?;
+        let ret = Instant::now();
+        r.map_err(|e| format!("step {i}: process_message({}) failed on a cooperative port: {e}", m.short()))?;
+        let s = h.borrow();
+        marks.push((w0, s.write_calls.len(), s.read_calls.len(), ret));
+        st.eval();
+    }
+    let s = h.borrow();
+    let mut paced = 0u64;
+    for (i, (m, r)) in c.steps.iter().enumerate() {
+        let (w0, w1, r1, ret) = marks[i];
+        if w1 == w0 {
+            return Err(format!("step {i}: {} was not written", m.short()));
+        }
+        if matches!(m, M::Data { .. }) && i + 1 < c.steps.len() {
+            let gap = s.write_calls[marks[i + 1].0].started.saturating_duration_since(s.write_calls[w1 - 1].at);
+            paced += 1;
+            if gap < SEND_PACE {
+                return Err(format!(
+                    "step {i}: the message after data chunk {} (chunk number {} of the train) was written after {gap:?}, less than 30 ms",
+                    m.short(),
+                    c.steps[..=i].iter().filter(|(x, _)| matches!(x, M::Data { .. })).count()
+                ));
+            }
+        }
+        if reply_expected(m) && matches!(r, Some(M::Report(_, 8)) | Some(M::Report(_, 10))) {
+            let prev_reads = if i == 0 { 0 } else { marks[i - 1].2 };
+            if r1 > prev_reads {
+                let d = ret.saturating_duration_since(s.read_calls[r1 - 1].at);
+                paced += 1;
+                if d < RECV_PACE {
+                    return Err(format!("step {i}: after the in-progress report to {} the bus returned after {d:?}, less than 100 ms", m.short()));
+                }
+            }
+        }
+    }
+    if paced >= 2 {
+        st.nontrivial(crate::engine::h64(c));
+    }
+    st.class_n("train:paced-exchanges", paced);
+    Ok(())
+}
+
+fn train_strategy() -> impl proptest::strategy::Strategy<Value = TrainCase> {
+    use proptest::prelude::*;
+    let step = prop_oneof![
+        6 => (proptest::sample::select(vec![0u16, 16, 32]), proptest::sample::select(vec![0usize, 1, 16])).prop_map(|(off, n)| (M::Data { off, data: vec![0x3C; n] }, None)),
+        2 => Just((M::Count(2), None)),
+        3 => (0u8..13).prop_map(|s| (M::Query(3), Some(M::Report(3, s)))),
+        2 => proptest::sample::select(vec![8u8, 10]).prop_map(|s| (M::Query(3), Some(M::Report(3, s)))),
+        1 => (0u8..6).prop_map(|o| (M::Req(3, o), Some(M::Ack(3, o)))),
+        1 => Just((M::PixelsComplete(3), None)),
+    ];
+    (proptest::collection::vec(step, 3..=8), proptest::sample::select(vec![0u64, 0, 0, 3, 11])).prop_map(|(steps, write_block_ms)| TrainCase { steps, write_block_ms })
+}
+
 pub fn all_pairs(addr: u16) -> Vec<PaceCase> {
     let mut msgs: Vec<M> = vec![
         M::Data { off: 0, data: vec![0xAA; 16] },
@@ -236,9 +321,35 @@ pub fn run(ctx: &Ctx) {
         }
     });
     ctx.part_done("pairs", true, json!({"message_reply_pairs": n, "addresses": addrs, "max_trials_before_declaring_a_delay": max_trials}));
+
+    // a fixed train: five chunks in a row, then a count and three polls that see in-progress twice
+    let fixed = TrainCase {
+        steps: vec![
+            (M::Data { off: 0, data: vec![1; 16] }, None),
+            (M::Data { off: 16, data: vec![2; 16] }, None),
+            (M::Data { off: 32, data: vec![3; 16] }, None),
+            (M::Data { off: 48, data: vec![4; 16] }, None),
+            (M::Data { off: 64, data: vec![] }, None),
+            (M::Count(5), None),
+            (M::Query(3), Some(M::Report(3, 10))),
+            (M::Query(3), Some(M::Report(3, 10))),
+            (M::Query(3), Some(M::Report(3, 9))),
+        ],
+        write_block_ms: 0,
+    };
+    let mut st = Stats::new();
+    if let Err(m) = check_train(&fixed, &mut st) {
+        ctx.fail("train", serde_json::to_value(&fixed).unwrap(), m);
+    }
+    ctx.merge("train", st);
+    crate::engine::run_generated_opts(ctx, "train", ctx.tier.pick(400, 6_000), 64, 60, train_strategy, |c, st| check_train(c, st));
 }
 
-pub fn replay(_part: &str, case: &Value) -> Result<(), String> {
+pub fn replay(part: &str, case: &Value) -> Result<(), String> {
+    if part == "train" {
+        let c: TrainCase = serde_json::from_value(case.clone()).map_err(|e| format!("bad case: {e}"))?;
+        return check_train(&c, &mut Stats::new());
+    }
     let c: PaceCase = serde_json::from_value(case.clone()).map_err(|e| format!("bad case: {e}"))?;
     check_pace(&c, &mut Stats::new(), 200)
 }
